@@ -15,7 +15,7 @@ func (c *caseWriter) add(h History, r runResult) {
 	c.cw.Add(func(id int) string {
 		var steps []string
 		for i, ob := range r.Obs {
-			steps = append(steps, cfgsm.CoqStep(false, ob.Ops, h.faultsOf(i), 0, cfgsm.CoqObs(ob.Disk, ob.Err != "", ob.Reload, false)))
+			steps = append(steps, cfgsm.CoqStep(false, ob.Ops, h.faultsOf(i), 0, true, cfgsm.CoqObs(ob.Disk, ob.Err != "", ob.Reload, false, ob.LastFailed)))
 		}
 		return cfgsm.CoqCase(id, h.Shards, false, steps)
 	}, h)
